@@ -59,6 +59,7 @@ use crate::validation;
 /// assert!(results.contains_key("id4"));
 /// assert!(results.contains_key("id5"));
 /// ```
+#[cfg_attr(feature = "verif-hooks", derive(Clone))]
 pub struct Parser<ID>
 where
     ID: Eq + Hash + Clone + Debug,
@@ -136,7 +137,17 @@ where
         validation::validate(keys, self.lalrpop_results.clone())
     }
 
+    /// Verification hook: the stored parse-stage results (tree + syntax diagnostics
+    /// before validation).
+    #[cfg(feature = "verif-hooks")]
+    pub fn verif_parse_results(&self) -> &HashMap<ID, ParseFileResult<ID>> {
+        &self.lalrpop_results
+    }
+
     fn collect_item_keys(&self) -> HashMap<ast::ItemKey, ast::ResolvedItemKind> {
+        #[cfg(feature = "verif-hooks")]
+        crate::verif_hooks::record_order("collect_item_keys", self.lalrpop_results.keys());
+
         self.lalrpop_results
             .values()
             .flat_map(|fr| &fr.ast)
